@@ -274,6 +274,7 @@ Sp(type, fam, pol, share, ports, etp, sel, reqIPs, reqPool) ==
   [type |-> type, fam |-> fam, pol |-> pol, v6first |-> FALSE, cips |-> TRUE, share |-> share, ports |-> ports,
    etp |-> etp, sel |-> sel, reqIPs |-> reqIPs, reqPool |-> reqPool, dep |-> FALSE, legacy |-> "", bad |-> FALSE]
 Bad(sp) == [sp EXCEPT !.bad = TRUE]
+V6First(sp) == [sp EXCEPT !.v6first = TRUE]
 Dep(sp) == [sp EXCEPT !.dep = TRUE]
 Legacy(sp, pn) == [sp EXCEPT !.legacy = pn]
 Plain == Sp("LB", "v4", "S", "", {"tcp80"}, "Cluster", "x", <<>>, "")
@@ -284,6 +285,10 @@ SpecsShare(s) ==
       ty \in {"LB"}, sk \in {"", "k1"}, p \in {{"tcp80"}, {"tcp443"}}, etp \in {"Cluster"} }
   \cup { Sp("LB", "v4", "S", "k1", {"tcp80"}, "Local", IF s = "s1" THEN "x" ELSE "y", <<>>, ""),
          Sp("LB", "v4", "S", "k1", {"tcp443"}, "Local", "", <<>>, ""),     \* Local policy, selector-less Service
+         Sp("LB", "v4", "S", "k1", {"tcp80", "udp80"}, "Cluster", "x", <<>>, ""),   \* one port number, two protocols
+         Sp("LB", "v4", "S", "k1", {"udp80"}, "Cluster", "x", <<>>, ""),
+         \* Local policy with a two-label selector (identical for every Service): port differs per Service
+         Sp("LB", "v4", "S", "k1", IF s = "s1" THEN {"tcp80"} ELSE {"tcp443"}, "Local", "x+z", <<>>, ""),
          Sp("CIP", "v4", "S", "", {"tcp80"}, "Cluster", "x", <<>>, "") }
 (* requests: explicit addresses / pool *)
 SpecsReq(s) ==
@@ -319,6 +324,12 @@ SpecsDualReq(s) ==
   { Plain, Sp("LB", "dual", "R", "", {"tcp80"}, "Cluster", "x", <<>>, ""),
     Sp("LB", "dual", "R", "", {"tcp80"}, "Cluster", "x", <<100, 1>>, ""),
     Sp("LB", "dual", "R", "", {"tcp80"}, "Cluster", "x", <<0, 101>>, ""),
-    Dep(Sp("LB", "dual", "P", "", {"tcp80"}, "Cluster", "x", <<101, 0>>, "")) }
+    Dep(Sp("LB", "dual", "P", "", {"tcp80"}, "Cluster", "x", <<101, 0>>, "")),
+    Sp("LB", "dual", "R", "", {"tcp80"}, "Cluster", "x", <<0>>, ""),      \* a dual-stack Service requesting one address only
+    V6First(Sp("LB", "dual", "R", "", {"tcp80"}, "Cluster", "x", <<>>, "")) }
+SpecsPrefer(s) ==
+  { Plain, Sp("LB", "dual", "P", "", {"tcp80"}, "Cluster", "x", <<>>, ""),
+    V6First(Sp("LB", "dual", "P", "", {"tcp80"}, "Cluster", "x", <<>>, "")),
+    V6First(Sp("LB", "dual", "R", "", {"tcp80"}, "Cluster", "x", <<>>, "")) }
 InitInnocent == [s \in {"s1"} |-> Innocent]
 =============================================================================
